@@ -407,6 +407,24 @@ func c09CheckSet(w *run.Worker, set map[string]c09Var, allParseOrders bool) {
 						changed = true
 					}
 				}
+				// the same set under the same visit orders once more: verdicts AND error texts are a function of
+				// (set, orders) — anything else means the loader consults an order the harness does not control
+				okR, errsR := c09Load(srcs, po, lo)
+				w.Eval()
+				for _, n2 := range names {
+					_, a1 := ok[n2]
+					_, a2 := okR[n2]
+					e1, e2 := "", ""
+					if e, bad := errs[n2]; bad {
+						e1 = e.Error()
+					}
+					if e, bad := errsR[n2]; bad {
+						e2 = e.Error()
+					}
+					if a1 != a2 || e1 != e2 {
+						w.Violate("C09:result-differs-between-identical-loads:"+c09Shape(set, n2), fmt.Sprintf("script %s, two loads of the same set under the same visit orders:\nfirst : accepted=%v %s\nsecond: accepted=%v %s\n%s", n2, a1, e1, a2, e2, describe()), cs)
+					}
+				}
 				ok2, _ := c09Load(srcs2, po, lo)
 				w.Eval()
 				w.Note("later_load_invariance_checks", 1)
@@ -637,7 +655,7 @@ func init() {
 		ID:    "C09",
 		Level: "model_checking",
 		Rule: "script sets over names {a,b,c,d}: each script is valid with an ordered list of <=2 use targets in {a,b,c,d,missing} (31 variants), valid without any statement (comment-only, blank lines), unparsable, check-failing, or check-failing with a multi-entry error chain; ALL sets of 1..3 scripts (36+36^2+36^3) under ALL parse/check orders x ALL link orders of the loader's two map iterations (overlay rewrite of the range statements), " +
-			"4-script sets with <=1 use each and all 4-sets of valid scripts with <=2 distinct existing targets (quick) / all 36^4 (thorough) under all 24 link orders; every (set, order) is a fresh ParseScript; oracle: verdict map == graph-reachability reference (hence equal across orders), every use call of an accepted script bound to the accepted script of that name, " +
+			"4-script sets with <=1 use each and all 4-sets of valid scripts with <=2 distinct existing targets (quick) / all 36^4 (thorough) under all 24 link orders; every (set, order) is a fresh ParseScript, and each set is loaded a second time under the same orders (same verdicts, same error texts); oracle: verdict map == graph-reachability reference (hence equal across orders), every use call of an accepted script bound to the accepted script of that name, " +
 			"a dependency-rejected script's position chain = root cause (callee's own error, use of a missing name, or cycle-closing call) followed by the use call sites outward, every entry inside the file it names; plus the unmodified map order 8x on a third of the 3-script sets (conformance of the seam)",
 		Assumptions:    []string{"the loader's only nondeterminism is the iteration order of its two script maps (checked by grep: pkg/engine has no other map range, goroutine or clock)"},
 		Run:            c09Run,
